@@ -7,8 +7,8 @@
 # usage: tools/seedtest.sh <patch> <property> [<property>...]
 set -u
 patch=$(readlink -f "$1"); shift
-cd /verif; . ./env.sh
-scratch=/verif/.work/seedtest-$$
+VD=${VERIF_DIR:-/verif}; cd $VD; . ./env.sh
+scratch=$VD/.work/seedtest-$$
 rm -rf $scratch; mkdir -p $scratch
 if [ "${SEEDTEST_INPLACE:-0}" = 1 ]; then
   if [ -n "$(git -C /repo status --porcelain)" ]; then echo "refusing: /repo has uncommitted changes"; exit 2; fi
